@@ -295,13 +295,13 @@ def run(ctx):
         gens.append(("notimes", dict(MaxAttempts=2, MaxFaults=0, Kinds=all_kinds, Orders=[post] + rnd.sample(others, 2),
                                      ConstChoices=[False], TimesChoices=[False], LateMax=2)))
     else:
-        gens.append(("orders4", dict(MaxAttempts=4, MaxFaults=0, Kinds=all_kinds, Orders=[post] + rnd.sample(others, 3),
+        gens.append(("orders4", dict(MaxAttempts=4, MaxFaults=0, Kinds=all_kinds, Orders=[post] + rnd.sample(others, 4),
                                      ConstChoices=[False], TimesChoices=[True], LateMax=1)))
         gens.append(("allorders", dict(MaxAttempts=3, MaxFaults=0, Kinds=all_kinds, Orders=list(range(14)),
                                        ConstChoices=[False], TimesChoices=[True], LateMax=0)))
         gens.append(("faults1", dict(MaxAttempts=3, MaxFaults=1, Kinds=all_kinds, Orders=[post],
                                      ConstChoices=[False, True], TimesChoices=[True], LateMax=1)))
-        gens.append(("faults2", dict(MaxAttempts=3, MaxFaults=2, Kinds=["I", "SB"], Orders=[rnd.choice(others)],
+        gens.append(("faults2", dict(MaxAttempts=3, MaxFaults=2, Kinds=["I", "B", "SB"], Orders=[rnd.choice(others)],
                                      ConstChoices=[False, True], TimesChoices=[True], LateMax=0)))
         gens.append(("notimes", dict(MaxAttempts=3, MaxFaults=0, Kinds=all_kinds, Orders=[post] + rnd.sample(others, 2),
                                      ConstChoices=[False], TimesChoices=[False], LateMax=2)))
@@ -405,7 +405,9 @@ def run(ctx):
         "built with CELERITAS_DEBUG off: inserting a null pointer is an unchecked precondition; it is probed in a child "
         "process and must never end up registered (observed outcome is in coverage.calls.nullinsert_values)",
         "mock actions derive from the real CoreStepActionInterface / CoreBeginRunActionInterface and record their calls; they "
-        "busy-wait 1.5 us so that an executed, timed action must show a strictly larger accumulator",
+        "busy-wait 1.5 us so that an executed, timed action must show a strictly larger accumulator; celeritas::Stopwatch reads "
+        "std::chrono::high_resolution_clock (system_clock with libstdc++): the wall clock is assumed not to be stepped back "
+        "during a run",
         "in sim runs real actions are observed only through the registry accessors, ActionSequence::actions(), accum_time() "
         "and, with the StatusChecker on, through its 'last executed action' seen by the next mock",
         "small-scope hypothesis for the exhaustive part: <= 4 registrations (<= 3 with faults) over 3-4 order values "
